@@ -84,6 +84,7 @@ func main() {
 	cpuprof := flag.String("cpuprofile", "", "write cpu profile")
 	nValidate := flag.Int("validate", 4, "number of concrete engine-vs-native differential runs")
 	maxSec := flag.Int("max-seconds", 0, "per-instance deadline override")
+	covFlag := flag.Bool("cov", false, "print the uncovered basic blocks of the property's anchor files")
 	repoFlag := flag.String("repo", "/repo", "development only: source tree to check instead of /repo")
 	outFlag := flag.String("out", "", "development only: directory for evidence and replays instead of <verif>/evidence")
 	flag.Parse()
@@ -114,7 +115,7 @@ func main() {
 		*tier = t
 	}
 	d := &driver{prop: *prop, tier: *tier, workers: *workers, seed: *seed, verif: *verifDir, only: *only,
-		verbose: *verbose, solver: *solver, paramOverride: *paramOverride, noReplay: *noReplay, maxSec: *maxSec, nValidate: *nValidate}
+		verbose: *verbose, solver: *solver, paramOverride: *paramOverride, noReplay: *noReplay, maxSec: *maxSec, nValidate: *nValidate, printCov: *covFlag}
 	code := d.main()
 	pprof.StopCPUProfile()
 	os.Exit(code)
@@ -143,6 +144,8 @@ type driver struct {
 	nValidate     int
 	validation    *validationOutcome
 	maxSec        int
+	printCov      bool
+	codeCov       *codeCov
 
 	cfg   Config
 	start time.Time
@@ -207,6 +210,7 @@ func (d *driver) main() int {
 		all = append(all, res...)
 	}
 	d.validation = d.validate(all, progs, d.nValidate)
+	d.codeCov = d.codeCoverage(progs, d.printCov)
 	return d.report(all, loadTime)
 }
 
